@@ -754,4 +754,111 @@ theorem number_exact_of_syntax (c : Cfg) (hd : c.debug = false)
             | panic t => cases hp
             | fault t => cases hp
 
+/-! ## truncated mantissas (`many_digits = true`) -/
+
+/-- `parse_u64_digits` digit by digit: `min step len` bytes folded into the mantissa -/
+theorem u64Spec_value (r : Nat) : ∀ (l : List Nat) (m st : Nat),
+    (u64Spec r l m st).2.1 = foldMantissa r m (dv r (l.take (min st l.length)))
+  | [], m, st => by simp [u64Spec, foldMantissa, dv]
+  | x :: xs, m, st => by
+    by_cases hst : st > 0
+    · obtain ⟨t, rfl⟩ : ∃ t, st = t + 1 := ⟨st - 1, by omega⟩
+      have ih := u64Spec_value r xs ((m * r + charToValidDigit x r) % pow2_64) t
+      simp only [u64Spec, hst, if_true, Nat.add_sub_cancel, List.length_cons]
+      rw [ih, Nat.add_min_add_right, List.take_succ_cons]
+      simp only [dv, List.map_cons, foldMantissa, List.foldl_cons, digitVal_eq_valid]
+    · have : st = 0 := by omega
+      subst this
+      simp [u64Spec, foldMantissa, dv]
+
+/-- the tail of `parse_number` on an accepted **truncated** input: the result is `manyCore`'s, with a positive count of
+significant digits beyond the step -/
+theorem tailOf_many (c : Cfg) (hS : RelClass c) (hre : c.exponentRadix ≤ 255) (isPartial : Bool) (o : POpts) (neg : Bool)
+    (ip : IntPart) (fp : FracPart) (hn : NoSep c ip.start.slc) (hids : NoSep c ip.integerDigits)
+    (hfd : ∀ fd, fp.fraction = some fd → NoSep c fd) (n : Number) (cnt : Nat)
+    (h : tailOf c isPartial o neg ip fp = .ok (n, cnt)) (hmany : n.manyDigits = true) :
+    ∃ (explicit ex0 : Int) (endIdx : Nat),
+      -(2 ^ 40 : Int) ≤ explicit ∧ explicit ≤ 2 ^ 40 ∧
+      0 < ip.nDigits + fp.nAfterDot - u64Step c.feats c.mantissaRadix - zerosPrefix (ip.start.slc.drop ip.start.index) -
+        zerosPrefix (ip.start.slc.drop
+          (if (ip.start.slc[ip.start.index + zerosPrefix (ip.start.slc.drop ip.start.index)]? == some o.dp) = true
+            then ip.start.index + zerosPrefix (ip.start.slc.drop ip.start.index) + 1
+            else ip.start.index + zerosPrefix (ip.start.slc.drop ip.start.index))) ∧
+      manyCore c.mantissaRadix (scaleVal c) ip.integerDigits ip.nDigits fp.fraction fp.mantissa explicit neg
+        (u64Step c.feats c.mantissaRadix) ex0 endIdx (c.feats.format && !c.bytesContiguous)
+        (ip.nDigits + fp.nAfterDot - u64Step c.feats c.mantissaRadix - zerosPrefix (ip.start.slc.drop ip.start.index) -
+          zerosPrefix (ip.start.slc.drop
+            (if (ip.start.slc[ip.start.index + zerosPrefix (ip.start.slc.drop ip.start.index)]? == some o.dp) = true
+              then ip.start.index + zerosPrefix (ip.start.slc.drop ip.start.index) + 1
+              else ip.start.index + zerosPrefix (ip.start.slc.drop ip.start.index)))) = .ok (n, cnt) := by
+  unfold tailOf at h
+  simp only [bind, Except.bind] at h
+  split at h
+  · cases hpk : peek c .integer ip.start with
+    | error err => rw [hpk] at h; cases h
+    | ok x =>
+      rw [hpk] at h
+      simp only at h
+      split at h <;> cases h
+  · cases hep : exponentPhase c (fp.byte.firstIs o.exp (c.caseSensitiveExponent && c.feats.format)) fp.byte fp.fraction
+        fp.exponent with
+    | error err => rw [hep] at h; cases h
+    | ok ep =>
+      rw [hep] at h
+      simp only at h
+      obtain ⟨x1, x2, x3⟩ := exponentPhase_facts c _ fp.byte fp.fraction fp.exponent ep hep hre
+      cases hsf : suffixPhase c ep.byte with
+      | error err => rw [hsf] at h; cases h
+      | ok bs =>
+        rw [hsf] at h
+        simp only at h
+        by_cases hle : ip.nDigits + fp.nAfterDot ≤ u64Step c.feats c.mantissaRadix
+        · rw [if_pos hle] at h
+          simp only [pure, Except.pure, Except.ok.injEq, Prod.mk.injEq] at h
+          rw [← h.1] at hmany; cases hmany
+        · rw [if_neg hle, manyDigits_rel c hS ip.start.slc hn o neg ip fp ep _ _ _ _ rfl hids hfd] at h
+          unfold manyClosed at h
+          dsimp only at h
+          by_cases hpos : 0 < ip.nDigits + fp.nAfterDot - u64Step c.feats c.mantissaRadix -
+              zerosPrefix (ip.start.slc.drop ip.start.index) -
+              zerosPrefix (ip.start.slc.drop
+                (if (ip.start.slc[ip.start.index + zerosPrefix (ip.start.slc.drop ip.start.index)]? == some o.dp) = true
+                  then ip.start.index + zerosPrefix (ip.start.slc.drop ip.start.index) + 1
+                  else ip.start.index + zerosPrefix (ip.start.slc.drop ip.start.index)))
+          · exact ⟨ep.explicit, _, bs.index, x2, x3, hpos, h⟩
+          · rw [manyCore_zero _ _ _ _ _ _ _ _ _ _ _ _ _ (by omega)] at h
+            simp only [Except.ok.injEq, Prod.mk.injEq] at h
+            rw [← h.1] at hmany; cases hmany
+
+/-- what `manyCore` returns when the count is positive and the byte iterator is contiguous -/
+theorem manyCore_facts (r : Nat) (scale : Int → Int) (ids : List Nat) (ipN : Nat) (fraction : Option (List Nat))
+    (fpMant : Nat) (explicit : Int) (neg : Bool) (step : Nat) (ex0 : Int) (endIdx : Nat) (nd : Nat) (hnd : nd > 0)
+    (n : Number) (cnt : Nat)
+    (h : manyCore r scale ids ipN fraction fpMant explicit neg step ex0 endIdx false nd = .ok (n, cnt)) :
+    n.integer = ids ∧ n.fraction = fraction ∧ n.explicitExp = explicit ∧
+    (((u64Spec r (ids.drop (zerosPrefix ids)) 0 step).2.2 = 0 ∧
+        n.mantissa = (u64Spec r (ids.drop (zerosPrefix ids)) 0 step).2.1 ∧
+        n.exponent = scale ((ipN : Int) - ((zerosPrefix ids + (u64Spec r (ids.drop (zerosPrefix ids)) 0 step).1 : Nat) : Int)) + explicit) ∨
+     ((u64Spec r (ids.drop (zerosPrefix ids)) 0 step).2.2 ≠ 0 ∧ ∃ fd, fraction = some fd ∧
+        n.mantissa = (u64Spec r (fd.drop (if (u64Spec r (ids.drop (zerosPrefix ids)) 0 step).2.1 = 0 then zerosPrefix fd else 0))
+          (u64Spec r (ids.drop (zerosPrefix ids)) 0 step).2.1 (u64Spec r (ids.drop (zerosPrefix ids)) 0 step).2.2).2.1 ∧
+        n.exponent = scale (-(((if (u64Spec r (ids.drop (zerosPrefix ids)) 0 step).2.1 = 0 then zerosPrefix fd else 0) +
+          (u64Spec r (fd.drop (if (u64Spec r (ids.drop (zerosPrefix ids)) 0 step).2.1 = 0 then zerosPrefix fd else 0))
+            (u64Spec r (ids.drop (zerosPrefix ids)) 0 step).2.1 (u64Spec r (ids.drop (zerosPrefix ids)) 0 step).2.2).1 : Nat) : Int)) + explicit)) := by
+  unfold manyCore at h
+  rw [if_pos hnd] at h
+  dsimp only at h
+  by_cases hz : (u64Spec r (ids.drop (zerosPrefix ids)) 0 step).2.2 = 0
+  · simp only [hz, decide_true, Bool.true_or, if_true, Except.ok.injEq, Prod.mk.injEq] at h
+    obtain ⟨rfl, _⟩ := h
+    exact ⟨rfl, rfl, rfl, Or.inl ⟨hz, rfl, rfl⟩⟩
+  · simp only [hz, decide_false, Bool.false_and, Bool.or_false, Bool.false_eq_true, if_false] at h
+    cases hfr : fraction with
+    | none => rw [hfr] at h; cases h
+    | some fd =>
+      rw [hfr] at h
+      simp only [Except.ok.injEq, Prod.mk.injEq] at h
+      obtain ⟨rfl, _⟩ := h
+      exact ⟨rfl, rfl, rfl, Or.inr ⟨hz, fd, rfl, rfl, rfl⟩⟩
+
 end LexVerif.Props.C01Number
